@@ -15,6 +15,10 @@ Lemma multisig_c_skeletons :
      Call "Fp12_multi_pairing("; Guard "Fp12_is_one("].
 Proof. split; reflexivity. Qed.
 
+Lemma return_counts_multisig :
+  (nret_bls_core_bls_verifyPerDistinctMessage, nret_bls_core_bls_verifyPerDistinctKey) = (1, 1)%nat.
+Proof. reflexivity. Qed.
+
 Section Proofs.
 Context {B : bilinear} {C : codecs}.
 Add Ring FRing6 : Fring.
